@@ -222,4 +222,12 @@ class ChargingStation(VehicleState):
         :return: an exception due to failure or an optional updated simulation
         """
 
+        vehicle = sim.vehicles.get(self.vehicle_id)
+        mechatronics = env.mechatronics.get(vehicle.mechatronics_id) if vehicle else None
+        if vehicle is not None and mechatronics is not None and mechatronics.is_full(vehicle):
+            # reached right after a default transition (arrival at the station, or a plug freed
+            # for a queueing vehicle) with an energy level that is already full: there is nothing
+            # to add in this step, and charge() refuses a full vehicle, which used to discard the
+            # transition and leave the vehicle stuck.  the terminal condition frees the plug next step.
+            return None, sim
         return charge(sim, env, self.vehicle_id, self.station_id, self.charger_id)
